@@ -17,6 +17,8 @@ Problems(r) ==
  \cup (IF \E i, j \in 1..n : i # j /\ a[i][1] = a[j][1] /\ a[i][1] > 0 THEN {"thread twice in the heap"} ELSE {})
  \cup (IF r.op = 0 /\ r.t > 0 /\ ~\E i \in 1..n : a[i][1] = r.t THEN {"pushed thread not in the heap"} ELSE {})
  \cup (IF r.op \in {1, 2} /\ r.t > 0 /\ \E i \in 1..n : a[i][1] = r.t THEN {"popped thread still in the heap"} ELSE {})
+ \cup (IF r.op \in {1, 2} /\ r.tidx # -1 THEN {"back index of the popped thread is not reset (-1 = in no sleep queue)"} ELSE {})
+ \cup (IF r.op = 0 /\ (r.tidx < 0 \/ r.tidx >= n) THEN {"back index of the pushed thread is not a slot of the heap"} ELSE {})
 Init == l = 1
 Next == /\ l <= Len(Tr)
         /\ LET p == Problems(Tr[l]) IN IF p = {} THEN TRUE ELSE PrintT("MISMATCH " \o ToString(l) \o " " \o ToString(p))
